@@ -184,9 +184,9 @@ theorem FS.hop (fs : FS) (start comps file : List Comp)
 purely lexical collapse of `.`/`..` ends. -/
 
 theorem FS.step_lex (fs : FS) (cur : List Comp) (c : Comp) (n : List Comp)
-    (h : fs.step cur c = .ok n) : n = lexStep cur c := by
+    (h : fs.step cur c = .ok n) : n = pathLexStep cur c := by
   unfold FS.step at h
-  unfold lexStep
+  unfold pathLexStep
   split at h
   · cases h
   · split at h
